@@ -1,85 +1,186 @@
-"""In-process fake of the dm-launchpad `courier` RPC package (prototype)."""
-import threading, itertools
+"""In-process stand-in for the dm-launchpad `courier` RPC package, with generated fault plans.
+
+Provides what ml-metrics uses: Server(name, port).{Bind, Unbind, Start, Stop, Join, has_started, address},
+Client(address, call_timeout).futures.<method>(*args, **kwargs) -> concurrent.futures.Future, and errors carrying
+`.code` (4 = deadline exceeded) and `.message`. Handlers run on transport threads (a thread pool), concurrently.
+
+Fault plan: PLANS[(address, method)] = list of actions consumed one per call of that method on that server:
+  'ok' | 'deadline_before' (handler not run, code 4) | 'deadline_after' (handler runs, reply dropped, code 4)
+  | 'die' (server leaves the transport; this and every later call to it fails with code 4)
+  | 'restart' (RESTART_HOOK(address) replaces the server by a fresh one, then the call is delivered to the new one)
+  | 'hold' (the reply is parked in HELD until the harness releases it).
+Calls to an address without a started server fail with code 4 (a real client would block until its deadline).
+"""
+from __future__ import annotations
+
+import itertools
+import threading
 from concurrent import futures
 
+_LOCK = threading.RLock()
 _REG = {}
-_REG_LOCK = threading.Lock()
 _PORT = itertools.count(20000)
-FAULTS = {}   # (address, method) -> list of actions consumed per call
+PLANS = {}
 CALLS = []
-_POOL = futures.ThreadPoolExecutor(max_workers=64, thread_name_prefix='fakecourier')
+HELD = []
+DEAD = set()
+RESTART_HOOK = None
+STATS = {'faults_hit': 0, 'calls': 0}
+_EXECUTOR = None
+_FUTURE_CLS = futures.Future
+
 
 class StatusNotOk(Exception):
+
   def __init__(self, code, message):
     super().__init__(message)
     self.code = code
     self.message = message
 
+
+def _executor():
+  global _EXECUTOR
+  if _EXECUTOR is None:
+    _EXECUTOR = futures.ThreadPoolExecutor(max_workers=64, thread_name_prefix='fakecourier')
+  return _EXECUTOR
+
+
+def set_executor(executor, future_cls=futures.Future):
+  """Lets a harness run the transport on its own (e.g. virtual) threads."""
+  global _EXECUTOR, _FUTURE_CLS
+  _EXECUTOR, _FUTURE_CLS = executor, future_cls
+
+
+def reset():
+  """Forgets servers, plans and logs (between generated cases)."""
+  global RESTART_HOOK
+  with _LOCK:
+    _REG.clear()
+    PLANS.clear()
+    del CALLS[:]
+    del HELD[:]
+    DEAD.clear()
+    RESTART_HOOK = None
+    STATS.update(faults_hit=0, calls=0)
+
+
+def in_flight():
+  return sum(1 for c in CALLS if c[3] == 'running')
+
+
 class Server:
+
   def __init__(self, name=None, port=None, thread_pool_size=16):
     self._name = name
     self._port = port or next(_PORT)
     self._handlers = {}
     self.has_started = False
+
   @property
   def address(self):
     return self._name or f'localhost:{self._port}'
-  def Bind(self, name, fn):
+
+  def Bind(self, name, fn):  # pylint: disable=invalid-name
     self._handlers[name] = fn
-  def Unbind(self, name):
+
+  def Unbind(self, name):  # pylint: disable=invalid-name
     self._handlers.pop(name, None)
-  def Start(self):
-    with _REG_LOCK:
+
+  def Start(self):  # pylint: disable=invalid-name
+    with _LOCK:
       _REG[self.address] = self
+      DEAD.discard(self.address)
     self.has_started = True
-  def Stop(self):
-    with _REG_LOCK:
+
+  def Stop(self):  # pylint: disable=invalid-name
+    with _LOCK:
       if _REG.get(self.address) is self:
         del _REG[self.address]
     self.has_started = False
-  def Join(self):
+
+  def Join(self):  # pylint: disable=invalid-name
     pass
 
+
 class _Futures:
+
   def __init__(self, client):
     self._client = client
+
   def __getattr__(self, method):
+    if method.startswith('__'):
+      raise AttributeError(method)
+
     def call(*args, **kwargs):
-      return self._client._call(method, args, kwargs)
+      return self._client._call(method, args, kwargs)  # pylint: disable=protected-access
     return call
 
+
+def release(i=0, ok=True):
+  """Completes the i-th held reply (ok) or fails it with deadline exceeded."""
+  with _LOCK:
+    fut, result = HELD.pop(i)
+  if ok:
+    fut.set_result(result)
+  else:
+    fut.set_exception(StatusNotOk(4, 'deadline exceeded (held reply dropped)'))
+
+
 class Client:
+
   def __init__(self, address, call_timeout=None, **kw):
     self.address = address
     self.call_timeout = call_timeout
     self.futures = _Futures(self)
+
   def _call(self, method, args, kwargs):
-    fut = futures.Future()
+    fut = _FUTURE_CLS()
+    address = self.address
+
     def run():
-      if not fut.set_running_or_notify_cancel():
+      if hasattr(fut, 'set_running_or_notify_cancel') and not fut.set_running_or_notify_cancel():
         return
-      with _REG_LOCK:
-        server = _REG.get(self.address)
-        plan = FAULTS.get((self.address, method))
+      with _LOCK:
+        STATS['calls'] += 1
+        plan = PLANS.get((address, method))
         action = plan.pop(0) if plan else 'ok'
-        CALLS.append((self.address, method, action))
-      if action == 'deadline_before':
-        fut.set_exception(StatusNotOk(4, 'deadline exceeded (injected, before)')); return
-      if action == 'die':
-        with _REG_LOCK: _REG.pop(self.address, None)
-        fut.set_exception(StatusNotOk(4, 'deadline exceeded (server died)')); return
-      if server is None or method not in server._handlers:
-        fut.set_exception(StatusNotOk(4 if server is None else 12, f'{method}@{self.address} unavailable'))
-        return
+        if action != 'ok':
+          STATS['faults_hit'] += 1
+        entry = [address, method, action, 'running']
+        CALLS.append(entry)
+        if action == 'die':
+          _REG.pop(address, None)
+          DEAD.add(address)
+        hook = RESTART_HOOK
       try:
-        res = server._handlers[method](*args, **kwargs)
+        if action == 'restart' and hook is not None:
+          hook(address)
+        if action == 'deadline_before':
+          fut.set_exception(StatusNotOk(4, f'deadline exceeded calling {method}@{address} (injected before delivery)'))
+          return
+        with _LOCK:
+          server = None if address in DEAD else _REG.get(address)
+        if server is None or not server.has_started or method not in server._handlers:  # pylint: disable=protected-access
+          fut.set_exception(StatusNotOk(4, f'deadline exceeded: {method}@{address} is unreachable'))
+          return
+        try:
+          res = server._handlers[method](*args, **kwargs)  # pylint: disable=protected-access
+        except Exception as e:  # pylint: disable=broad-exception-caught
+          fut.set_exception(StatusNotOk(2, f'{type(e).__module__}.{type(e).__name__}: {e}'))
+          return
         if action == 'deadline_after':
-          fut.set_exception(StatusNotOk(4, 'deadline exceeded (injected, after)')); return
+          fut.set_exception(StatusNotOk(4, f'deadline exceeded calling {method}@{address} (injected after delivery)'))
+          return
+        if action == 'hold':
+          with _LOCK:
+            HELD.append((fut, res))
+          return
         fut.set_result(res)
-      except Exception as e:
-        fut.set_exception(StatusNotOk(2, f'{type(e).__name__}: {e}'))
-    _POOL.submit(run)
+      finally:
+        entry[3] = 'done'
+    _executor().submit(run)
     return fut
+
   def __getattr__(self, method):
     if method.startswith('_'):
       raise AttributeError(method)
